@@ -426,11 +426,12 @@ Apply(name, left, args, cfg) ==
     [] name = "slice" ->
          \* filter_reference.md: zero-based start (negative: from the end), length defaults to 1
          IF Len(args) \notin {1, 2} THEN Err("LiquidTypeError")
-         ELSE IF a1.t # "int" \/ (Len(args) = 2 /\ a2.t # "int") THEN Err("UNSPEC")
+         ELSE IF a1.t = "undef" THEN Err("LiquidTypeError")                    \* "slice expected an integer, found Undefined"
+         ELSE IF a1.t # "int" \/ (Len(args) = 2 /\ a2.t \notin {"int", "undef"}) THEN Err("UNSPEC")
          ELSE IF left.t \notin {"str", "arr"} THEN Err("UNSPEC")
          ELSE LET items == IF left.t = "str" THEN left.v ELSE left.v
                   n == Len(items)
-                  len == IF Len(args) = 2 THEN a2.n ELSE 1
+                  len == IF Len(args) = 2 /\ a2.t = "int" THEN a2.n ELSE 1      \* an undefined length counts as the default
                   st == IF a1.n < 0 THEN n + a1.n ELSE a1.n
               \* a start before the beginning: the window [st, st + len) still counts from there (what falls
               \* before the first item is not there); MC_Filters also accepts the empty result for it
@@ -443,6 +444,7 @@ Apply(name, left, args, cfg) ==
          ELSE Str(ReplaceLast(ls, ToStr(a1), IF name = "replace_last" THEN ToStr(a2) ELSE ""))
     [] name = "truncatewords" ->
          IF Len(args) > 2 THEN Err("LiquidTypeError")
+         ELSE IF Len(args) >= 1 /\ a1.t = "undef" THEN Err("LiquidTypeError")
          ELSE IF Len(args) >= 1 /\ a1.t # "int" THEN Err("UNSPEC")
          ELSE LET n0 == IF Len(args) >= 1 THEN a1.n ELSE 15
                   n == IF n0 <= 0 THEN 1 ELSE n0
